@@ -137,7 +137,7 @@ fn run_long(net: Net, threshold: u16, main_len: u16, fork_len: u16, fork_after: 
             return None;
         }
         let id = w.model.add_block(parent, block, diff);
-        w.settle(&mut info);
+        w.settle(&mut info, &mut |_, _| {});
         if step_errors(&info, out) {
             return None;
         }
